@@ -16,7 +16,9 @@ struct vmap {
 	unsigned char *arr;       /* ARRAY / PERCPU_ARRAY storage */
 	struct vmap **inner;      /* ARRAY_OF_MAPS slots */
 };
+#ifndef VMAP_MAX   /* a driver that needs many inner maps (C02: one LPM per ring slot) may define it before including */
 #define VMAP_MAX 96
+#endif
 static struct vmap vmaps[VMAP_MAX];
 static unsigned vmap_n;
 
